@@ -246,7 +246,22 @@ XTARGETS = [
     ("custom", "Widget1 { id: X }", "X.toolTip"),
     ("in-menu-action", "QMenu { QAction { id: X } }", "X.text"),
     ("in-menu-separator", "QMenu { QAction { id: X; separator: true } }", "X.text"),
+    # objects written where no object can be declared (under an action, under a spacer): the document must be
+    # rejected; if it is accepted all the same, every reference still has to resolve
+    ("under-action", "QAction { QAction { id: X } }", "X.text"),
+    ("under-action-widget", "QAction { QLineEdit { id: X } }", "X.text"),
+    ("under-action-second", "QAction { QAction { } QAction { id: X } }", "X.text"),
+    ("under-menu-action", "QMenu { QAction { QAction { id: X } } }", "X.text"),
+    ("under-spacer", "QWidget { QVBoxLayout { QSpacerItem { QLabel { id: X } } } }", "X.text"),
 ]
+WIDGET_TAGS = {"widget", "layout-child", "menu", "tab-page", "custom", "under-action-widget", "under-spacer"}
+ACTION_TAGS = {"action", "action-plain", "separator-static", "separator-with-text", "separator-false", "in-menu-action",
+               "in-menu-separator", "under-action", "under-action-second", "under-menu-action"}
+# sites whose object-valued slot takes a QWidget* / a QAction*: a target of another class must not be accepted there
+SITE_WANTS = {"buddy": WIDGET_TAGS, "buddy-dynamic": WIDGET_TAGS, "buddy-block-null-first": WIDGET_TAGS,
+              "buddy-block-null-last": WIDGET_TAGS, "buddy-block-null-middle": WIDGET_TAGS, "buddy-ternary-null-first": WIDGET_TAGS,
+              "buddy-ternary-null-last": WIDGET_TAGS, "buddy-if-completion": WIDGET_TAGS, "buddy-switch": WIDGET_TAGS,
+              "actions-list": ACTION_TAGS, "actions-list-dynamic": ACTION_TAGS, "menu-action": {"menu"}}
 XSITES = [
     ("binding-read", lambda x, rd: f"QLabel {{ text: {rd} as string }}" if False else f"QLabel {{ toolTip: {rd.replace('X', x)} }}"),
     ("binding-read-mixed", lambda x, rd: f"QLabel {{ toolTip: cb.checked ? {rd.replace('X', x)} : \"n\" }}"),
@@ -257,6 +272,14 @@ XSITES = [
     ("buddy-dynamic", lambda x, rd: f"QLabel {{ buddy: cb.checked ? {x} : sink }}"),
     ("actions-list", lambda x, rd: f"QToolButton {{ actions: [{x}] }}"),
     ("menu-action", lambda x, rd: f"QToolButton {{ actions: [{x}.menuAction()] }}"),
+    # object-valued bindings written with several exits, null in every position
+    ("buddy-block-null-first", lambda x, rd: f"QLabel {{ buddy: {{ if (cb.checked) {{ return null }} else {{ return {x} }} }} }}"),
+    ("buddy-block-null-last", lambda x, rd: f"QLabel {{ buddy: {{ if (cb.checked) {{ return {x} }} else {{ return null }} }} }}"),
+    ("buddy-block-null-middle", lambda x, rd: f"QLabel {{ buddy: {{ if (cb.checked) return {x}; if (!cb.checked) return null; return {x} }} }}"),
+    ("buddy-ternary-null-first", lambda x, rd: f"QLabel {{ buddy: cb.checked ? null : {x} }}"),
+    ("buddy-ternary-null-last", lambda x, rd: f"QLabel {{ buddy: cb.checked ? {x} : null }}"),
+    ("buddy-if-completion", lambda x, rd: f"QLabel {{ buddy: {{ if (cb.checked) null; else {x} }} }}"),
+    ("buddy-switch", lambda x, rd: f"QLabel {{ buddy: {{ switch (cb.checked) {{ case true: return null; default: return {x} }} }} }}"),
 ]
 
 
@@ -291,6 +314,13 @@ def judge_xref(t, vd, cid, ttags, src):
         t.inc("xref_rejected")      # ill-typed combination (buddy: action, ...): nothing to resolve
         return
     t.inc("xref_accepted")
+    if len(ttags) == 1 and ttags[0].startswith("under-"):
+        t.violation("accepted-an-object-declared-under-a-leaf", case)
+        return
+    stag = cid.split("/")[-1]
+    if len(ttags) == 1 and stag in SITE_WANTS and ttags[0] not in SITE_WANTS[stag]:
+        t.violation("reference-of-an-incompatible-class-accepted", case)
+        return
     ui = uiread.parse(g["ui"])
     named = uiread.named_objects(ui)
     names = [n for (_k, n, _c, _e) in named]
